@@ -18,25 +18,6 @@ Ltac respine := repeat match goal with
                        | E : c_root ?c = _ |- context [c_root ?c] => rewrite E
                        end.
 
-Section P.
-  Variable main : list lang.
-  Variable sub : bytes -> xtree + N.
-  Variable input : bytes.
-
-  Notation step := (step main sub input).
-  Notation run := (run main sub input).
-
-  (* ------------------------------------------------------------------ run *)
-
-  Lemma run_app c a b : run c (a ++ b) = run (run c a) b.
-  Proof. unfold XmlFront.run. apply fold_left_app. Qed.
-
-  Lemma run_cons c e r : run c (e :: r) = run (step c e) r.
-  Proof. reflexivity. Qed.
-
-  Lemma run_nil c : run c [] = c.
-  Proof. reflexivity. Qed.
-
   (* ------------------------------------------------------------------ the first part of the end-element callback *)
 
   (* flush_binary touches only the innermost frame (its cached text and its children) and the error field *)
@@ -72,6 +53,26 @@ Section P.
       destruct (f_rkids f) as [|[] ?]; cbn; rewrite K; auto.
     - eexists; split; [reflexivity|]. unfold is_cdata_frame, frame_name; cbn. rewrite K; auto.
   Qed.
+
+
+Section P.
+  Variable main : list lang.
+  Variable sub : bytes -> xtree + N.
+  Variable input : bytes.
+
+  Notation step := (step main sub input).
+  Notation run := (run main sub input).
+
+  (* ------------------------------------------------------------------ run *)
+
+  Lemma run_app c a b : run c (a ++ b) = run (run c a) b.
+  Proof. unfold XmlFront.run. apply fold_left_app. Qed.
+
+  Lemma run_cons c e r : run c (e :: r) = run (step c e) r.
+  Proof. reflexivity. Qed.
+
+  Lemma run_nil c : run c [] = c.
+  Proof. reflexivity. Qed.
 
   (* ------------------------------------------------------------------ (a) the error field *)
 
